@@ -94,7 +94,25 @@ def _m_omptask_collapse(case, clause, detail, finding):
                for c in ("text", "syms", "tree")) and bool(diff.get("tree"))
 
 
-MATCHERS = {"omptask-collapse-refused-after-detach": _m_omptask_collapse,
+def _m_kmi_same_name(case, clause, detail, finding):
+    '''KernelModuleInlineTrans.apply prepares the kernel code (bringing the module-level
+    imports of the kernel into scope: wildcard ContainerSymbols) BEFORE it finds that a
+    different routine of the same name already exists and refuses.'''
+    if case["trans"] != "KernelModuleInlineTrans":
+        return False
+    if "another, different, subroutine with the same name already exists" \
+            not in (case["error"] or ""):
+        return False
+    diff = detail or {}
+    if "tree" in diff or "text" in diff:
+        return False
+    return bool(diff.get("syms")) and _only(
+        diff["syms"], lambda l: l.startswith("@@") or
+        (l.startswith("+") and " ContainerSymbol#" in l))
+
+
+MATCHERS = {"kernel-module-inline-imports-before-refusal": _m_kmi_same_name,
+            "omptask-collapse-refused-after-detach": _m_omptask_collapse,
             "omp-reprod-symbols-before-validate": _m_omp_reprod,
             "verbose-refusal-comment": _m_verbose_comment}
 
